@@ -3,6 +3,7 @@ import DracoModel.SeqDecoder
 import DracoModel.SeqEncoder
 import DracoProofs.SeqGeometry
 import DracoProofs.SeqRows
+import DracoProofs.SpecCheck
 /-
   C01 — encode/decode round trip, composed and machine checked for the SEQUENTIAL methods
   (`POINT_CLOUD_SEQUENTIAL_ENCODING`, `MESH_SEQUENTIAL_ENCODING`), against the decoder model
@@ -573,5 +574,51 @@ example : ∃ r st, decodeGeometry {} { rest := sampleStream ++ [] } = (some r, 
     samplePC_ok (fun m h => by cases h) samplePC_encodes' []
   obtain ⟨d, hd, _, _, _, hv⟩ := h3 0 _ rfl
   exact ⟨r, st, h1, d, hd, by rw [hv]; decide +kernel⟩
+
+/-! ## 7. the executable specification RoundTripOK accepts the proved decode result -/
+
+/-- the string-valued check evaluated by the driver on the implementation's outputs (`Spec.check`) says
+    `"ok"` exactly when the Boolean relation `Spec.checkCore` (RoundTripOK) holds -/
+theorem spec_check_ok_iff (cls : Spec.MethodClass) (req : Spec.QuantReq) (g g' gs : Geometry) :
+    Spec.check cls req g g' gs = "ok" ↔ Spec.checkCore cls req g g' gs = true :=
+  check_ok_iff cls req g g' gs
+
+example : Spec.check .sequential [] samplePC samplePC samplePC = "ok" :=
+  (spec_check_ok_iff _ _ _ _ _).2 (by decide +kernel)
+
+/-- **RoundTripOK accepts `expected g opts`** (sequential class): with the quantization request of the
+    options (`quantReq`) and the all-transforms-skipped decode `expectedSkip allTypes g opts` as the
+    source of the declared transforms.  Hypotheses beyond the domain: distinct unique ids (matching
+    is by id; the check answers `skip` otherwise) and a point cloud carries no faces. -/
+theorem spec_accepts_expected (ch : Choices) (g : Geometry) (md : Option GeometryMetadata)
+    (opts : EncOpts) (bs : Bytes) (hok : GeomOK g opts)
+    (hnd : (g.atts.map (·.uniqueId)).Nodup) (hpc : g.isMesh = false → g.faces = [])
+    (henc : encodeGeometry ch g md opts = some bs) :
+    Spec.check .sequential (quantReq g opts) g (expected g opts) (expectedSkip allTypes g opts) = "ok" :=
+  (check_ok_iff _ _ _ _ _).2 (checkCore_expected ch g md opts bs hok hnd hpc henc)
+
+/-- **The corollary the checks rely on**: for an encoder-produced sequential stream, the ordinary
+    decode and the all-transforms-skipped decode (both of the stream followed by arbitrary bytes)
+    exist, and the executable specification RoundTripOK — the very function the checks evaluate on the
+    implementation's outputs — accepts them. -/
+theorem seq_roundtrip_ok (ch : Choices) (g : Geometry) (md : Option GeometryMetadata)
+    (opts : EncOpts) (bs : Bytes) (hok : GeomOK g opts) (hmd : ∀ m, md = some m → m.WF')
+    (hnd : (g.atts.map (·.uniqueId)).Nodup) (hpc : g.isMesh = false → g.faces = [])
+    (henc : encodeGeometry ch g md opts = some bs) (extra : Bytes) :
+    ∃ r rs st st',
+      decodeGeometry {} { rest := bs ++ extra } = (some r, st) ∧
+      decodeGeometry { skip := allTypes } { rest := bs ++ extra } = (some rs, st') ∧
+      Spec.check .sequential (quantReq g opts) g r.geometry rs.geometry = "ok" := by
+  obtain ⟨st, h1, _⟩ := seq_roundtrip ch g md opts bs hok hmd henc extra
+  obtain ⟨st', h2, _⟩ := seq_skip_roundtrip allTypes ch g md opts bs hok hmd henc extra
+  exact ⟨_, _, st, st', h1, h2, spec_accepts_expected ch g md opts bs hok hnd hpc henc⟩
+
+/-- non-vacuity on `samplePC` -/
+example : ∃ r rs st st',
+    decodeGeometry {} { rest := sampleStream ++ [1] } = (some r, st) ∧
+    decodeGeometry { skip := allTypes } { rest := sampleStream ++ [1] } = (some rs, st') ∧
+    Spec.check .sequential (quantReq samplePC sampleOpts) samplePC r.geometry rs.geometry = "ok" :=
+  seq_roundtrip_ok sampleChoices samplePC none sampleOpts sampleStream samplePC_ok (fun m h => by cases h)
+    (by decide) (fun _ => rfl) samplePC_encodes' [1]
 
 end Draco.C01
